@@ -17,7 +17,7 @@ PROPS = ['PGA.Props.C08']
 GEN = ['Chars', 'MolQuery']
 OBLIGATIONS = ['PGA.C08.' + t for t in [
     'C08_tab_ops', 'C08_tab_bondwords', 'C08_tab_cn', 'C08_words_as_reference',
-    'C08_matches_iff_partial', 'C08_matches_nodup', 'C08_matches_iff_full_fails',
+    'C08_matches_iff_partial', 'C08_fragment_matches_iff_partial', 'C08_matches_nodup', 'C08_matches_iff_full_fails',
     'C08_cap_inactive', 'C08_capped_iff_partial', 'C08_truncated_sound',
     'C08_read_wf', 'C08_alpha_read_partial', 'C08_alpha_matches_partial', 'C08_labels_irrelevant']]
 RULE = ('cases = (fragment, molecule) pairs. Fragments: bounded-exhaustive one- and two-atom fragments (every symbol '
@@ -286,6 +286,59 @@ def classify(fc, ent, impl, oracle, capped):
     return None
 
 
+def shrink(fc, ent, budget=60):
+    """smaller fragment on which implementation and oracle still differ on the same molecule (greedy, bounded)"""
+    import copy
+
+    def differs(frag):
+        try:
+            if isinstance(EM.embeddings(frag, ent['g'], G=ent['G']), tuple):
+                return False
+        except Exception:
+            return False
+        q, cls = impl_read(RG.render(frag, plain=True))
+        if cls != 'ok':
+            return False
+        return impl_matches(q, ent['mol'], quiet=True) != EM.embeddings(frag, ent['g'], G=ent['G'])
+    cur = copy.deepcopy(fc.frag)
+    progress = True
+    while progress and budget > 0:
+        progress = False
+        cands = []
+        for k in range(len(cur['molprefix'])):
+            c = copy.deepcopy(cur)
+            del c['molprefix'][k]
+            cands.append(c)
+        for i in range(len(cur['items']) - 1, 0, -1):          # drop a trailing item nobody refers to
+            it = cur['items'][i]
+            lab = it[1]['label'] if it[0] == 'atom' else None
+            later = json.dumps(cur['items'][i + 1:])
+            if lab is None or ('"%s"' % lab) not in later:
+                c = copy.deepcopy(cur)
+                del c['items'][i]
+                cands.append(c)
+        for i, it in enumerate(cur['items']):
+            if it[0] == 'atom':
+                for k in range(len(it[1]['chain'])):
+                    c = copy.deepcopy(cur)
+                    del c['items'][i][1]['chain'][k]
+                    cands.append(c)
+                for field in ('prefix', 'suffix'):
+                    if it[1].get(field) not in (None, '?'):
+                        c = copy.deepcopy(cur)
+                        c['items'][i][1][field] = None if field == 'prefix' else '?'
+                        cands.append(c)
+        for c in cands:
+            budget -= 1
+            if budget <= 0:
+                break
+            if differs(c):
+                cur = c
+                progress = True
+                break
+    return cur
+
+
 def check_pair(ctx, fc, ent, requests, selfcheck=True):
     """property oracle on one (fragment, molecule) pair; queues the model request. Returns True when the property holds."""
     q = fc.q
@@ -324,6 +377,14 @@ def check_pair(ctx, fc, ent, requests, selfcheck=True):
             detail = {'extra': sorted(set(impl) - set(oracle))[:5], 'missing': sorted(set(oracle) - set(impl))[:5]}
         else:
             what, detail = 'matching raises an exception', {}
+        if fid is None and not any(v['what'] == what for v in ctx.violations):
+            small = shrink(fc, ent)
+            if small != fc.frag:
+                st = RG.render(small, plain=True)
+                sq, _ = impl_read(st)
+                inp = dict(inp, fragment=small, text=st, shrunk_from=fc.text)
+                impl, oracle = impl_matches(sq, ent['mol'], quiet=True), EM.embeddings(small, ent['g'], G=ent['G'])
+                detail = {'extra': sorted(set(impl) - set(oracle))[:5], 'missing': sorted(set(oracle) - set(impl))[:5]} if isinstance(impl, list) else {}
         ctx.violation(what, inp, expected={'embeddings': oracle[:50] if isinstance(oracle, list) else oracle, 'n': len(oracle)},
                       observed={'matches': impl[:50] if isinstance(impl, list) else impl, 'diff': detail}, finding=fid)
     elif isinstance(impl, list) and len(set(impl)) != len(impl):
